@@ -39,6 +39,21 @@ pub fn make_scenario(prop: &str, run_seed: u64, thorough: bool) -> Scenario {
             let program = generate::gen_program(&mut w, &params);
             let ops = generate::gen_history(&mut w, &program, &params);
             let strict = w.chance(1, 2);
+            let storage = if w.chance(1, 5) {
+                Storage::Db {
+                    cache_cap: *w.pick(&[1, 2, 4, 8]),
+                    ser_workers: w.range(1, 2) as usize,
+                    group_max: w.range(1, 4) as u32,
+                }
+            } else {
+                Storage::Mem
+            };
+            let ops = if matches!(storage, Storage::Db { .. }) {
+                let d = w.range(0, 3) as u32;
+                generate::sprinkle(&mut w, ops, 0, d)
+            } else {
+                ops
+            };
             let sched = if s.chance(1, 2) {
                 SchedCfg::Off
             } else {
@@ -48,12 +63,49 @@ pub fn make_scenario(prop: &str, run_seed: u64, thorough: bool) -> Scenario {
                 program,
                 ops,
                 cfg: RunCfg {
-                    storage: Storage::Mem,
+                    storage,
                     strict,
                     yield_every: if s.chance(1, 4) { Some(s.below(3) as usize) } else { None },
                     sched,
                     cyclic: false,
                     check_c03: true,
+                    crash_check: false,
+                    sched_seed: run_seed,
+                },
+            }
+        }
+        "C07" | "C08" => {
+            let mut params = params.clone();
+            if prop == "C08" {
+                params.allow_ex = false;
+                params.max_nodes = params.max_nodes.min(if thorough { 20 } else { 9 });
+                params.max_ops = params.max_ops.min(if thorough { 16 } else { 8 });
+            }
+            let program = generate::gen_program(&mut w, &params);
+            let ops = generate::gen_history(&mut w, &program, &params);
+            let restarts = if prop == "C07" { w.range(1, 3) as u32 } else { w.range(0, 1) as u32 };
+            let drains = w.range(0, 4) as u32;
+            let ops = generate::sprinkle(&mut w, ops, restarts, drains);
+            let strict = w.chance(2, 3);
+            Scenario {
+                program,
+                ops,
+                cfg: RunCfg {
+                    storage: Storage::Db {
+                        cache_cap: *w.pick(&[1, 1, 2, 3, 4, 8, 16, 64]),
+                        ser_workers: w.range(1, 3) as usize,
+                        group_max: w.range(1, 6) as u32,
+                    },
+                    strict,
+                    yield_every: None,
+                    sched: if s.chance(1, 2) {
+                        SchedCfg::Off
+                    } else {
+                        SchedCfg::Uniform { num: 1, den: 5, k: 2, site_salt: None, preempt: false }
+                    },
+                    cyclic: false,
+                    check_c03: true,
+                    crash_check: prop == "C08",
                     sched_seed: run_seed,
                 },
             }
